@@ -2,13 +2,13 @@ package rules
 
 import (
 	"fmt"
-	"os"
-	"runtime"
-	"time"
 	"go/constant"
 	"go/types"
+	"os"
+	"runtime"
 	"sort"
 	"strings"
+	"time"
 
 	"golang.org/x/tools/go/ssa"
 
@@ -70,15 +70,15 @@ type scanRow struct {
 }
 
 type scanModel struct {
-	pkgRel   string
-	recvType string // "Scanner" / "scanner"
-	method   bool   // state functions are methods (enum) rather than funcs taking *scanner
-	states   map[string]*ssa.Function
-	names    []string
-	rows     map[string]*[256]scanRow
-	lexNames map[int64]string
-	initial  string
-	selfName string
+	pkgRel    string
+	recvType  string // "Scanner" / "scanner"
+	method    bool   // state functions are methods (enum) rather than funcs taking *scanner
+	states    map[string]*ssa.Function
+	names     []string
+	rows      map[string]*[256]scanRow
+	lexNames  map[int64]string
+	initial   string
+	selfName  string
 	undecided []string
 }
 
